@@ -90,7 +90,8 @@ func FullKeyIDs() [][2]string {
 }
 
 func (g *Gen) Regular(validity *uint64, keyids [][2]string) HandlerSpec {
-	return HandlerSpec{Regular: true, Validity: validity, KeyIDs: keyids}
+	// the key_label option is mostly left out (as in the shipped configuration), sometimes configured
+	return HandlerSpec{Regular: true, Validity: validity, KeyIDs: keyids, KeyLabel: core.Pick(g.R, "", "", "", "regular", "bastion", "ops team")}
 }
 
 func Accepting(keys ...FakeKeySpec) HandlerSpec {
@@ -303,6 +304,31 @@ func (g *Gen) Emit(class string, spec SessionSpec) *Session {
 		c.Stat("result:" + res.KindName)
 	}
 	if g.Focus == "C03" {
+		// at most one generation, whatever the certificates are called: after a successful run through the regular
+		// handler no certificate the CA issued in an EARLIER run of the session is left in the agent
+		earlier := map[string]int{}
+		for n, res := range s.Results {
+			allRegular := len(spec.Runs[n].Handlers) > 0
+			for _, h := range spec.Runs[n].Handlers {
+				allRegular = allRegular && h.Regular
+			}
+			if res.KindName == "success" && allRegular {
+				left := 0
+				for _, b := range res.StoreBlobs {
+					if m, ok := earlier[string(b)]; ok {
+						left++
+						c.Native(fmt.Sprintf("after the successful run %d the agent still holds a certificate the CA issued in run %d (more than one generation)", n, m), s.Human())
+						break
+					}
+				}
+				if left == 0 {
+					c.NativeCheck(1)
+				}
+			}
+			for _, b := range res.Issued {
+				earlier[string(b)] = n
+			}
+		}
 		// after the session: every labelled certificate the agent holds can sign
 		n, err := s.Agent.CheckUsable(func(i *Identity) bool {
 			return i.Comment == "paranoids.regular-cert" && i.Priv != nil && !g.poolOwns(i)
